@@ -37,7 +37,11 @@
      "proxy_rebind"  proxy::operator=(proxy const &) / (proxy &&) defaulted (the code as
                      it was before "fix: bitfield proxy assignment assigns the referenced
                      bit", 506c999): x[i] = x[j] re-seats the temporary proxy and leaves
-                     bit i alone; x[i] = x[j] = b only sets bit j *)
+                     bit i alone; x[i] = x[j] = b only sets bit j
+     "mask_shift32"  bit_mask computed with a 32-bit shift (static_cast<Word>(1U << bit) in
+                     shifted_mask / power_of_2): on the usual hardware the shift count is taken
+                     modulo 32, so enumerator 32 + k of a 64-bit word lands on bit k.  Invisible
+                     unless some enumerator has a bit offset >= 32, i.e. N > 32 and W = 64 *)
 EXTENDS Bitfield, Json
 
 CONSTANTS W,      \* bits per storage word (std::numeric_limits<Word>::digits)
@@ -57,16 +61,19 @@ FullWord == BitPos
 ArrayOffset(pos) == pos \div W
 BitOffset(pos) == IF Bug = "offset_div" THEN pos \div W ELSE pos % W
 
+(* bit_mask(bit) = shifted_mask<Word>(bit) = Word(1) << bit: the one bit of the mask *)
+MaskBit(m) == IF Bug = "mask_shift32" THEN m % 32 ELSE m
+
 INull == [k \in WordIdx |-> {}]         \* detail::null_array
 
 (* proxy::operator=(bool) *)
 ISet(ws, pos, b) ==
   LET k == ArrayOffset(pos)
-      m == BitOffset(pos)
+      m == MaskBit(BitOffset(pos))
   IN [ws EXCEPT ![k] = IF b THEN @ \cup {m} ELSE @ \ {m}]
 
 (* proxy::operator bool *)
-IGet(ws, pos) == BitOffset(pos) \in ws[ArrayOffset(pos)]
+IGet(ws, pos) == MaskBit(BitOffset(pos)) \in ws[ArrayOffset(pos)]
 
 IOr(a, b) == [k \in WordIdx |-> a[k] \cup b[k]]
 IAnd(a, b) == [k \in WordIdx |-> a[k] \cap b[k]]
